@@ -87,6 +87,19 @@ fn c31_hwba_to_hsla_in_range() {
     assert!(h.alpha() == w.alpha());
 }
 
+/// C31: hsl -> hwb (what whiteness()/blackness() of an hsl color report):
+/// whiteness and blackness in [0,1], w + b <= 1, hue and alpha kept.
+#[kani::proof]
+#[kani::stub(crate::value::colors::hsla::deg_mod, crate::value::colors::hsla::kani_verif::deg_mod_by_contract)]
+fn c31_hsla_to_hwba_in_range() {
+    let h = any_hsla_valid();
+    let w = Hwba::from(&h);
+    assert!(0.0 <= w.whiteness() && w.whiteness() <= 1.0, "whiteness in [0, 100%]");
+    assert!(0.0 <= w.blackness() && w.blackness() <= 1.0, "blackness in [0, 100%]");
+    assert!(w.whiteness() + w.blackness() <= 1.0 + 1e-9, "w + b <= 100%");
+    assert!(w.hue() == h.hue() && w.alpha() == h.alpha(), "hue and alpha kept");
+}
+
 /// C31 round trip (attempt; expensive float reasoning): rebuilding an rgb
 /// color from its own hsl channels gives an equal color.
 #[kani::proof]
